@@ -38,12 +38,44 @@ META = {"C02": {
                     "user functions pure; call order across schedules not compared",
                     "after a step-ending statement only events, terminator and persistent variables are "
                     "compared (temporaries are discarded at step end)"],
-    "probes": ["guard_flipped_by_store", "terminated_schedules", "loop_statement_reordered"],
+    "probes": ["guard_flipped_by_store", "terminated_schedules", "loop_statement_reordered",
+               "programs_with_implicit_solves"],
 }}
 
 
 class Terminated(Exception):
     pass
+
+
+class _Overlay(dict):
+    """the unknowns of an implicit solve bound on top of the (recording) variable store"""
+
+    def __init__(self, base, bound):
+        dict.__init__(self)
+        self.base, self.bound = base, bound
+
+    def __getitem__(self, k):
+        return self.bound[k] if k in self.bound else self.base[k]
+
+    def get(self, k, default=None):
+        return self.bound[k] if k in self.bound else self.base.get(k, default)
+
+    def __contains__(self, k):
+        return k in self.bound or k in self.base
+
+
+class SolverInterp(NumpyInterpreter):
+    """The stock interpreter has no solver.  The simulated environment's solver does one evaluation of
+    each equation with the unknowns bound to the starting guess: it reads exactly what a real solver must
+    read (the equations' other variables, the guess) and writes the assignees."""
+
+    def exec_AssignImplicit(self, stmt):
+        from dagrt.expression import EvaluationMapper
+        guess = self.eval_mapper(stmt.other_params["guess"])
+        bound = {name: guess for name in stmt.solve_variables}
+        ev = EvaluationMapper(_Overlay(self.context, bound), self.eval_mapper.functions)
+        for assignee, expr in zip(stmt.assignees, stmt.expressions):
+            self.context[assignee] = ev(expr)
 
 
 class Exec:
@@ -53,7 +85,7 @@ class Exec:
         self.stmts = stmts
         phase = ExecutionPhase("p", "p", list(stmts))
         code = DAGCode({"p": phase}, "p")
-        self.interp = NumpyInterpreter(code, {fn: sc.func_impl(fn) for fn in sc.funcs})
+        self.interp = SolverInterp(code, {fn: sc.func_impl(fn) for fn in sc.funcs})
 
     def run(self, order, store0, record=False):
         """Returns dict(events, term, store, acc) ; acc[i] = (reads, writes) when record."""
@@ -293,7 +325,11 @@ def run_c02(ctx):
         max_ops = [4, 8, 12][tape.draw(3, "max_ops")] if not ctx.thorough else [6, 10, 16][tape.draw(3, "max_ops")]
         n_stores = 1 + tape.draw(3, "nstores")
         K = (2 + tape.draw(4, "K")) if not ctx.thorough else (8 + tape.draw(24, "K"))
-    gen = ScriptGen(tape, max_ops=max_ops, max_phases=2, max_depth=2)
+    with tape.span("implicit"):
+        implicit = tape.chance(0.35, "implicit")
+    if implicit:
+        ctx.count("probe:programs_with_implicit_solves")
+    gen = ScriptGen(tape, max_ops=max_ops, max_phases=2, max_depth=2, implicit=implicit)
     sc = gen.gen()
     try:
         ap = apply_script(sc)
@@ -336,7 +372,8 @@ def run_c02(ctx):
             # ---- candidates (G2/G3)
             cands = []
             exe = h0["executed"]
-            nonassign = [not isinstance(s, (Assign, AssignFunctionCall)) for s in stmts]
+            from dagrt.language import AssignImplicit
+            nonassign = [not isinstance(s, (Assign, AssignFunctionCall, AssignImplicit)) for s in stmts]
             for bi, j in enumerate(exe):
                 rj, wj = h0["acc"][j][0], h0["acc"][j][1] | h0["acc"][j][2]
                 for i in exe[:bi]:
